@@ -4,6 +4,7 @@ import (
 	"fmt"
 	"math/big"
 	"math/rand"
+	"sync"
 
 	"verifharness/core"
 )
@@ -17,6 +18,7 @@ func (t txSpec) gas(g uint64) txSpec        { t.Gas = g; return t }
 func (t txSpec) val(v *big.Int) txSpec      { t.Value = v; return t }
 func (t txSpec) data(n, nz int) txSpec      { t.DataLen, t.NZ = n, nz; return t }
 func (t txSpec) chain(c string) txSpec      { t.Chain = c; return t }
+func (t txSpec) fit(size int) txSpec        { t.Fit = size; return t }
 func add(via string, txs ...txSpec) *opSpec { return &opSpec{Kind: "add", Via: via, Txs: txs} }
 func price(p int64) *opSpec                 { return &opSpec{Kind: "price", Price: p} }
 func head(event bool, mv ...move) *opSpec   { return &opSpec{Kind: "head", Event: event, Moves: mv} }
@@ -29,6 +31,17 @@ func (o *opSpec) limit(g uint64) *opSpec { o.GasLimit = g; return o }
 func (o *opSpec) back(n int, remine bool, extend int) *opSpec {
 	o.Back, o.Remine, o.Extend = n, remine, extend
 	return o
+}
+
+// slotsData is a payload length with which a transaction occupies exactly k pool slots
+// (k = 1..4), off bytes into the last slot; zeroGas is the gas a zero payload of n bytes needs.
+func slotsData(k, off int) int { return (k-1)*slotBytes + off }
+func zeroGas(n int) uint64     { return baseGasLegacy + uint64(n)*gasPerZeroByte }
+
+// fat is a transaction of k slots.
+func fat(acct int, nonce uint64, price int64, k int) txSpec {
+	n := slotsData(k, 1000)
+	return tx(acct, nonce, price).data(n, 0).gas(zeroGas(n) + 1000)
 }
 
 func seq(acct int, via string, price int64, nonces ...uint64) *opSpec {
@@ -52,7 +65,17 @@ func baseOpts() sessionOpts {
 }
 
 // sizeProbe finds the payload length at which the signed transaction encodes to exactly maxTxBytes.
+var (
+	probeOnce sync.Once
+	probeLen  int
+)
+
 func sizeProbe() int {
+	probeOnce.Do(func() { probeLen = sizeProbeSlow() })
+	return probeLen
+}
+
+func sizeProbeSlow() int {
 	n := maxTxBytes - 120
 	for ; n < maxTxBytes; n++ {
 		t := buildTx(0, accounts[1], 0, big.NewInt(100), 900000, big.NewInt(100), n, 0, "plain")
@@ -67,7 +90,7 @@ func scenarios() []scenario {
 	with := func(f func(o *sessionOpts)) sessionOpts { o := baseOpts(); f(&o); return o }
 	static := func(ops ...*opSpec) func(*session) []*opSpec { return func(*session) []*opSpec { return ops } }
 	exact := sizeProbe()
-	return []scenario{
+	list := []scenario{
 		{"demote-unaffordable", baseOpts(), static(
 			add("sync", tx(1, 0, 100), tx(1, 1, 500), tx(1, 2, 100)),
 			head(false, bal(1, 4000000)), // affords price 100 (3 000 100), not price 500
@@ -275,7 +298,114 @@ func scenarios() []scenario {
 			seq(2, "sync", 300, 0, 1, 2),
 			price(150),
 		)},
+		// a sender that was remote becomes local (its pooled transactions migrate; their price-heap
+		// entries stay behind: two of eight, no re-heap), then the price threshold rises above them
+		{"role-switch-then-reprice", baseOpts(), static(
+			seq(1, "sync", 300, 0, 1), seq(2, "sync", 300, 0, 1), seq(3, "sync", 300, 0, 1),
+			seq(0, "sync", 100, 0, 1),
+			add("local", tx(0, 2, 100)),
+			price(200),
+			add("sync", tx(0, 3, 50)),
+			price(350),
+			price(1),
+		)},
+		// ... then the pool fills up and better-paying remote transactions arrive
+		{"role-switch-then-full-pool", baseOpts(), static(
+			seq(1, "sync", 300, 0, 1), seq(2, "sync", 300, 0, 1), seq(3, "sync", 300, 0, 1),
+			seq(0, "sync", 100, 0, 1),
+			add("local", tx(0, 2, 100)),
+			seq(1, "sync", 300, 3, 4, 5),
+			add("sync", tx(2, 3, 500)),
+			add("sync", tx(3, 3, 300)),
+			add("sync", tx(3, 3, 250)),
+			add("sync", tx(3, 3, 301)),
+			add("sync", fat(2, 4, 600, 3)),
+			price(400),
+		)},
+		// the same history with local handling disabled: no exemption, the transactions may go
+		{"role-switch-no-locals", with(func(o *sessionOpts) { o.noLocals = true }), static(
+			seq(1, "sync", 300, 0, 1), seq(2, "sync", 300, 0, 1), seq(3, "sync", 300, 0, 1),
+			seq(0, "sync", 100, 0, 1),
+			add("local", tx(0, 2, 100)),
+			price(200),
+			seq(0, "local", 250, 0, 1, 2),
+			seq(1, "sync", 300, 3, 4, 5),
+			add("sync", tx(2, 3, 500)),
+			add("local", tx(0, 3, 100)),
+		)},
+		// first local submission replaces a pending transaction: the sender is not recorded as local
+		// (DESIGN calibration), the second one records it
+		{"role-switch-by-pending-replacement", baseOpts(), static(
+			seq(1, "sync", 300, 0, 1), seq(2, "sync", 300, 0, 1), seq(3, "sync", 300, 0, 1),
+			seq(0, "sync", 100, 0, 1),
+			add("local", tx(0, 0, 150)),
+			price(200),
+			add("local", tx(0, 1, 100)),
+			add("sync", tx(0, 2, 100)),
+			price(300),
+			price(1),
+		)},
+		// the sender migrates with a queue of its own, several price raises and a flood follow
+		{"role-switch-queued-and-pending", baseOpts(), static(
+			seq(1, "sync", 400, 0, 1), seq(2, "sync", 400, 0, 1),
+			add("sync", tx(3, 0, 100), tx(3, 1, 120), tx(3, 3, 110), tx(3, 4, 130)),
+			add("local", tx(3, 6, 90)),
+			price(105),
+			price(125),
+			seq(1, "sync", 400, 3, 4, 5), seq(2, "sync", 400, 3, 4),
+			add("sync", tx(0, 0, 500), tx(0, 1, 500)),
+			add("sync", fat(0, 2, 500, 2)),
+			price(450),
+		)},
+		// local multi-slot transactions on top of a full pool: every remote transaction goes, the
+		// pool ends above its limit with local transactions only
+		{"multislot-local-forced", baseOpts(), static(
+			seq(1, "sync", 200, 0, 1), seq(2, "sync", 200, 0, 1), seq(3, "sync", 200, 0, 1),
+			seq(1, "sync", 200, 3, 4, 5), seq(2, "sync", 200, 3, 4),
+			add("local", fat(0, 0, 50, 4)),
+			add("local", fat(0, 1, 50, 4), fat(0, 2, 50, 4)),
+			add("local", fat(0, 3, 50, 4)),
+			add("sync", tx(1, 0, 900)),
+			add("sync", fat(2, 0, 900, 2)),
+			mine(true, map[int]int{0: 2}),
+			add("sync", tx(1, 0, 900)),
+		)},
 	}
+	// transactions sized to the byte at a slot boundary, next to the limit
+	list = append(list, scenario{"multislot-exact-slot-boundary", baseOpts(), static(
+		seq(1, "sync", 200, 0, 1), seq(2, "sync", 250, 0, 1), seq(3, "sync", 300, 0, 1), seq(1, "sync", 200, 3, 4, 5), seq(2, "sync", 250, 3),
+		add("sync", fat(0, 0, 150, 2).fit(2*slotBytes)), // the two free slots to the byte, cheap: nothing has to go
+		add("sync", fat(0, 1, 150, 1).fit(slotBytes+1)), // one byte into a second slot, cheap, pool full
+		add("sync", fat(0, 1, 500, 1).fit(slotBytes)),   // one slot to the byte, dear: one transaction goes
+		add("sync", fat(3, 2, 500, 3).fit(3*slotBytes)),
+		add("sync", fat(3, 3, 900, 4).fit(maxTxBytes)),
+	)})
+	// multi-slot arrivals into an almost full pool: free = 1..3 slots left, the arrival needs more
+	for free := 1; free <= 3; free++ {
+		for k := free + 1; k <= 4; k++ {
+			for _, dear := range []bool{false, true} {
+				free, k, dear := free, k, dear
+				name, p := fmt.Sprintf("multislot-%d-slots-into-%d-free-cheap", k, free), int64(150)
+				if dear {
+					name, p = fmt.Sprintf("multislot-%d-slots-into-%d-free-dear", k, free), 500
+				}
+				list = append(list, scenario{name, baseOpts(), func(*session) []*opSpec {
+					ops := []*opSpec{seq(1, "sync", 200, 0, 1), seq(2, "sync", 250, 0, 1), seq(3, "sync", 300, 0, 1), seq(1, "sync", 200, 3, 4, 5)}
+					if free < 3 {
+						ops = append(ops, seq(2, "sync", 250, []uint64{3, 4}[:3-free]...))
+					}
+					return append(ops,
+						add("sync", fat(0, 0, p, k)),
+						add("sync", fat(0, 0, 200, k)), // as cheap as the cheapest
+						add("sync", fat(0, 1, 201, k)),
+						add("sync", tx(3, 2, 100)),
+						add("async", fat(3, 2, 1000, 4)),
+					)
+				}})
+			}
+		}
+	}
+	return list
 }
 
 func corpus(c *core.Case) {
@@ -301,6 +431,7 @@ func corpus(c *core.Case) {
 		}
 		s.exec(op)
 	}
+	s.finish()
 	if !s.dead {
 		c.Run.Count("corpus_scenarios", 1)
 		c.Run.Nontrivial("corpus:" + sc.name)
@@ -310,6 +441,13 @@ func corpus(c *core.Case) {
 // ---- random histories ----
 
 var (
+	// limit sets of one history in four: the demonstration-sized pool, a roomier one (bigger price
+	// heap: a migration leaves a smaller share of it stale), and one with odd proportions
+	otherLimits = []limits{
+		{AccountSlots: 2, GlobalSlots: 4, AccountQueue: 2, GlobalQueue: 4, PriceBump: 10},
+		{AccountSlots: 4, GlobalSlots: 10, AccountQueue: 4, GlobalQueue: 8, PriceBump: 10},
+		{AccountSlots: 1, GlobalSlots: 4, AccountQueue: 3, GlobalQueue: 3, PriceBump: 25},
+	}
 	balances  = []int64{0, 2000000, 4000000, 10000000, 50000000}
 	gasPrices = []int64{1, 100, 150, 200, 300, 450}
 )
@@ -360,6 +498,13 @@ func genTx(r *rand.Rand, s *session, acct int) txSpec {
 		}
 	}
 	switch x := r.Intn(1000); {
+	case x < 40: // valid and large: two to four slots
+		bumpGame()
+		multiSlot(r, &t)
+		if t.DataLen < slotBytes && t.Fit == 0 {
+			t.DataLen += slotBytes
+			t.Gas = zeroGas(t.DataLen) + 500
+		}
 	case x < 600: // valid, possibly a replacement
 		bumpGame()
 		switch g := r.Intn(100); {
@@ -399,8 +544,8 @@ func genTx(r *rand.Rand, s *session, acct int) txSpec {
 		t.Nonce = sn + 5 + uint64(r.Intn(4))
 	case x < 772: // oversized
 		t.DataLen, t.Gas = maxTxBytes+1+r.Intn(2000), 900000
-	case x < 795: // two slots
-		t.DataLen, t.Gas = slotBytes+r.Intn(9000), 200000
+	case x < 795: // one to four slots, around the slot boundaries
+		multiSlot(r, &t)
 	case x < 835: // unaffordable
 		if r.Intn(2) == 0 {
 			t.Value = new(big.Int).Add(head.bal(a.addr), big.NewInt(1))
@@ -426,7 +571,42 @@ func genTx(r *rand.Rand, s *session, acct int) txSpec {
 	return t
 }
 
+// multiSlot gives t a zero payload that makes it occupy one to four slots; one time in three the
+// size sits right at a slot boundary.
+func multiSlot(r *rand.Rand, t *txSpec) {
+	k := 1 + r.Intn(4)
+	n := slotsData(k, r.Intn(slotBytes))
+	if n > maxTxBytes-200 {
+		n = maxTxBytes - 200
+	}
+	t.DataLen, t.NZ, t.Gas = n, 0, zeroGas(n)+uint64(r.Intn(2000))
+	if r.Intn(3) == 0 {
+		// k slots to the byte, or one byte less or more (k = 4: the largest admissible transaction)
+		t.DataLen, t.Fit = k*slotBytes-120, k*slotBytes+[]int{0, 0, -1, 1}[r.Intn(4)]
+		t.Gas = zeroGas(t.DataLen) + 1000
+	}
+}
+
 func genOp(r *rand.Rand, s *session) *opSpec {
+	// a directed episode in progress: its next step (now and then an unrelated operation slips in)
+	for len(s.script) > 0 && r.Intn(6) != 0 {
+		f := s.script[0]
+		s.script = s.script[1:]
+		if o := f(r, s); o != nil && (o.Kind != "add" || len(o.Txs) > 0) {
+			return o
+		}
+	}
+	if len(s.script) == 0 {
+		switch e := r.Intn(1000); {
+		case e < 14:
+			s.script = roleSwitchEpisode(r, s)
+		case e < 28:
+			s.script = nearFullEpisode(r, s)
+		}
+		if len(s.script) > 0 {
+			return genOp(r, s)
+		}
+	}
 	x := r.Intn(100)
 	switch {
 	case x < 70:
@@ -456,7 +636,7 @@ func genOp(r *rand.Rand, s *session) *opSpec {
 				t = tx(acct, base+uint64(i)+uint64(len(s.pre.pending[accounts[acct].addr])), 10*int64(10+r.Intn(51)))
 			}
 			// no two submissions of the same transaction in one call
-			key := fmt.Sprint(t.Acct, t.Nonce, t.Price, t.Gas, t.Value, t.DataLen, t.Chain)
+			key := fmt.Sprint(t.Acct, t.Nonce, t.Price, t.Gas, t.Value, t.DataLen, t.Fit, t.Chain)
 			if t.Resubmit != nil {
 				key = fmt.Sprint("dup", t.Resubmit.id)
 			}
@@ -527,7 +707,11 @@ func genOp(r *rand.Rand, s *session) *opSpec {
 func history(c *core.Case) {
 	r := c.R
 	o := sessionOpts{lim: tight, priceLimit: []uint64{1, 1, 100}[r.Intn(3)], genesisHeight: 1,
-		lifetime: r.Intn(8) == 0, noLocals: r.Intn(14) == 0, presetLocal: r.Intn(4) == 0, journal: r.Intn(3) != 0}
+		lifetime: r.Intn(8) == 0, noLocals: r.Intn(9) == 0, presetLocal: r.Intn(4) == 0, journal: r.Intn(3) != 0,
+		reheapObs: r.Intn(6) == 0}
+	if r.Intn(4) == 0 {
+		o.lim = otherLimits[r.Intn(len(otherLimits))]
+	}
 	if r.Intn(6) == 0 {
 		o.genesisHeight = galaxiasHeight - 1 - uint64(r.Intn(6))
 	}
@@ -541,10 +725,17 @@ func history(c *core.Case) {
 	for ; done < n && !s.dead; done++ {
 		s.exec(genOp(r, s))
 	}
+	s.finish()
 	if s.dead {
 		return
 	}
 	c.Run.Count("histories", 1)
+	if s.noLocals {
+		c.Run.Count("histories_locals_disabled", 1)
+	}
+	if o.reheapObs {
+		c.Run.Count("histories_reheaping_observer", 1)
+	}
 	if s.events > 0 && len(s.everAcc) >= 10 {
 		c.Run.Nontrivial(fmt.Sprint("history", c.I, n))
 	}
